@@ -1,5 +1,6 @@
 import HpackVerif.Props.Common
 import HpackVerif.Proofs.Limits
+import HpackVerif.Proofs.Prefix
 /-! # C07 — the decoded header list never exceeds `max_header_list_size`
 
 `Cur.decode` models `Decoder.decode` on the current tree; `hsize` is the size of a header list as the
@@ -59,6 +60,16 @@ theorem exact_limit_continues (fuel : Nat) (st st' : DecState) (b0 : UInt8) (dat
   rw [decodeLoop]
   simp only [hf]
   rw [if_neg (by omega), hexact]
+
+/-- lifted to blocks: if the running size of a list of representations crosses the limit at some field
+    (`interpPrefix … = error (oversized, _)`), the block is refused with the oversized-header-list error
+    **whatever octets follow that field** — nothing after the crossing point influences the outcome, so the
+    work spent is bounded by the limit plus the octets up to that point -/
+theorem refused_at_crossing_block (st : DecState) (h : Props.DecReach st) (rcs : List (Rep × Choice))
+    (hok : ∀ rc ∈ rcs, RepOK Gen.intCap rc.1 rc.2) (rest : Bytes) (ctx : Ctx)
+    (hp : interpPrefix (abs st) (rcs.map (·.1)) [] 0 = .error (.oversized, ctx)) :
+    (Impl.decode Gen.intCap true st (blockOctets rcs ++ rest)).1 = .err .oversized :=
+  (decode_prefix_error (own := true) Gen.intCap st (Props.decReach_inv h) rcs hok rest .oversized ctx hp).1
 
 theorem hsize_ge (out : List Header) : 32 * out.length ≤ hsize out := by
   unfold hsize
